@@ -41,6 +41,13 @@ def post(ctx, cases, gores, model):
                 if tr:
                     lines.append((tr, payload))
     hooks = cov.get("input_distribution", {}).get("hooks.present", 0) > 0
+    dist = cov.get("input_distribution", {})
+    cov["window_continues_completed_inside_the_window"] = dist.get("window.inside", 0)
+    cov["window_continues_not_completed_while_parked"] = dist.get("window.missed", 0)
+    if hooks and dist.get("window.inside", 0) == 0:
+        ctx.notes.append("hooks are present but NO Continue completed while its thread was parked between 'marked suspended' and Wait "
+                         f"({dist.get('window.missed', 0)} attempts blocked): the window schedule was not exercised on this tree "
+                         "(e.g. the flag and the wait are one critical section there)")
     cov["hooks_present"] = hooks
     cov["traces_validated_against_impl"] = 0
     cov["handshake_events_replayed"] = 0
@@ -80,6 +87,16 @@ def post(ctx, cases, gores, model):
             checklib.violation(ctx, rp, f"handshake trace not accepted by the model or thread left parked: {res[i][0]}")
 
 
+ESTABLISHED_READS = {("scope", "Parent"), ("scope", "Name"), ("scope", "ToJSONObject"), ("ast", "Equals"), ("ext", "fmt.Sprintf[ast]"),
+                     ("debugger", "VisitState"), ("debugger", "VisitStepInState"), ("debugger", "VisitStepOutState"),
+                     ("debugger", "SetLockingState"), ("debugger", "SetThreadPool"), ("debugger", "RecordThreadFinished")}
+
+
+def denied(cat, detail):
+    return cat in ("scopepkg", "logger", "runtime", "astwrite", "rtwrite", "otherwrite", "pkgvarwrite") or \
+        (cat == "scope" and detail in ("SetValue", "SetLocalValue", "Clear", "NewChild"))
+
+
 def extract(ctx):
     """regenerate the fact debugger_is_read_only (lean/Ecal/Gen/C15.lean) from the type-checked source"""
     import re
@@ -91,9 +108,13 @@ def extract(ctx):
     unknown += ["not found: " + m for m in re.findall(r'\("([^"]+)", false\)', txt.split("def reachable")[0])]
     unres = txt.split("def unresolved")[1]
     unknown += ["unresolved: " + a + " in " + f for f, a in re.findall(r'\("([^"]*)", "([^"]*)"\)', unres)]
-    acc = re.findall(r'\("([^"]*)", "([^"]*)"\)', txt.split("def observerAccesses")[1].split("def ownWrites")[0])
+    acc = re.findall(r'\("([^"]*)", "([^"]*)", "([^"]*)"\)', txt.split("def observerAccesses")[1].split("def ownWrites")[0])
+    cov["fact_accesses"] = sorted(set(c + ":" + d for _, c, d in acc))
+    not_established = sorted(set(c + ":" + d for _, c, d in acc if (c, d) not in ESTABLISHED_READS and not denied(c, d)))
+    cov["fact_accesses_not_established"] = not_established
+    if not_established:
+        unknown.append("accesses neither denied nor established as reads: " + ", ".join(not_established))
     cov["fact_debugger_is_read_only"] = "unknown" if unknown else "established-or-refuted-by-lean (observer_accesses_allowed, own_writes_locked, own_reads_locked, visit_returns_nil, debugger_read_at_eval_time)"
-    cov["fact_accesses"] = sorted(set(a for _, a in acc))
     cov["fact_debugger_uses"] = sorted(set(a for _, a in re.findall(r'\("([^"]*)", "([^"]*)"\)', txt.split("def debuggerUses")[1].split("def debuggerFields")[0])))
     cov["fact_functions_reachable"] = len(re.findall(r'"', txt.split("def reachable")[1].split("\n")[0])) // 2
     if unknown:
@@ -129,7 +150,7 @@ SPEC = dict(
           "suspension (status/describe commands) against the model run on the visit trace recorded from the real "
           "interpreter. Non-trivial = the model predicts at least one suspension."),
     trusted_base=[
-        "the visit trace handed to the model is recorded from the real interpreter by a wrapper around the debugger (harness code); independently of it every evaluated literal node and every statement of a statement list must be announced to the debugger (`vis`)",
+        "the visit trace handed to the model is recorded from the real interpreter by a wrapper around the debugger (harness code) - except for the directed cases, whose traces are literals (c15pinned.go); `finished` events are inserted by the harness by specification (after the entry file, every console line, every sink execution), not taken from the code's RecordThreadFinished calls; `vis` (every evaluated literal node and every statement of a statement list is announced to the debugger) counts evaluations through the parent's call of the child runtime, so it cannot see a parent that bypasses the child runtime (that is what the pinned directed traces are for)",
         "Go's sync.Cond / sync.Mutex behave as the handshake transition system assumes (no spurious wake-ups, Wait releases the lock atomically)",
         "hook events are logged in an order consistent with the lock order (hooks/C15.patch places them inside the critical sections)",
         "fact extractor (go/types over package interpreter): static classification of receivers / assignment targets; reflection, unsafe and function values are outside it (function values are reported as unresolved)",
@@ -137,6 +158,8 @@ SPEC = dict(
     ],
     assumptions=[
         "transparency (same result/log/variables) is a tested metamorphic relation over generated programs, not a theorem about the Go evaluator",
+        "while a debugger is attached, function call enter / exit are properly nested for it: the sanity assertion of VisitStepOutState (top of the recorded call stack equals the returning call; a debugger detached inside one call and re-attached inside another panics there) is NOT modelled (the model keeps the call depth only)",
+        "the transparency generator is c15Gen (functions, recursion, loops, try/except incl. one-line, lists/maps, log), not the C04/C05 generators: no objects, closures, imports, mutex blocks, e.trace; self-containing values only as the known-finding corpus program",
         "one controller per thread at a time (two concurrent Continue calls for the same thread are outside the model)",
         "eventual resumption needs a fair Go scheduler and a terminating program",
         "debugging state belongs to an EXECUTION: when an execution ends (sink execution on a pool worker, console line, entry file) every pending command of its thread id - resume, step, kill - ends with it (fix thread-finished-clears-state); the property's 'every suspended thread can be resumed' and 'suspends whenever it arrives at an active break point' are read per execution",
@@ -155,8 +178,8 @@ META = dict(
                 "interleaving of controller and thread steps is at most 12 steps long and ends with the thread executing again with the "
                 "command (continue_always_releases); StopThreads on a suspended thread is a schedule of the same transition system and "
                 "releases it (no Continue of another controller in flight); suspension at an active break point whenever a thread in any "
-                "debugging situation arrives from another position (source AND line), no re-suspension on the same line after resume, "
-                "step-in/over/out targets for arbitrary balanced call nesting; attaching never crashes the thread; the old code's lost resume "
+                "debugging situation visits a position different from the model's position field is.pos (source AND line; PARTIAL: the trace-level statement over the last executed position is not proved), no re-suspension on the same line after resume, "
+                "step-in/over/out targets for arbitrary balanced call nesting; the old code's lost resume "
                 "is a reachable stuck state. Regenerated facts (type-checked extraction, three-valued): what the debugger's evaluator side "
                 "touches, maps only under the lock on both sides, debugger read at evaluation time, visit functions return nil. "
                 "Transparency of the Go debugger (same result, log, variables) is tested metamorphically, not proved; concurrency of several "
